@@ -41,12 +41,12 @@ VERIF = os.path.dirname(os.path.dirname(os.path.abspath(__file__)))
 
 
 def run_diff(args):
-    """a stored diff replayed on the current tree: ("skipped"|"ok"|"error", violations, undecided)"""
+    """a stored diff replayed on the corpus snapshot it was made for: ("skipped"|"ok"|"error", violations, undecided)"""
     prop, root, path = args
     from .__main__ import analyse
-    from .patching import patched_sources, seeded_sources
+    from .patching import stored_sources, added
     try:
-        src = seeded_sources(os.path.dirname(path), root) if os.path.basename(path) == "patch.diff" else patched_sources(path, root)
+        src = stored_sources(os.path.dirname(path) if os.path.basename(path) == "patch.diff" else path)
     except Exception:
         src = None
     if src is None:
@@ -55,8 +55,9 @@ def run_diff(args):
         mod, ctx = analyse(prop, root, "quick", sources=src)
     except Exception as ex:  # pragma: no cover
         return ("error", [f"{type(ex).__name__}: {ex}"], [])
-    viol = [(r.rule, r.func, r.construct[:120]) for r in ctx.results if r.status == VIOLATION]
-    unk = [(r.rule, r.func, r.construct[:120], r.msg[:120]) for r in ctx.results if r.status == UNKNOWN]
+    new_ = added(prop, ctx.results)          # judged by what the diff adds to the reports on the bare corpus snapshot
+    viol = [(r.rule, r.func, r.construct[:120]) for r in new_ if r.status == VIOLATION]
+    unk = [(r.rule, r.func, r.construct[:120], r.msg[:120]) for r in new_ if r.status == UNKNOWN]
     return ("ok", viol, unk)
 
 
